@@ -103,6 +103,8 @@ def run(shard, ctx):
 
     c = S.COMMANDS[shard["cmd"]]
     rng = ctx.rng()
+    if c.custom in ("mode6", "mode10") and shard["part"] == 0:
+        sensed_flow(ctx, c, shard)
     i = -1
     for mode in modes(c, shard):
         i += 1
@@ -134,6 +136,43 @@ def run(shard, ctx):
                 nt = judge(ctx, c, setname, "facade", a, exp, dev.calls[0][0])
                 ctx.case(("facade",) + rep, nt)
                 ctx.count("facade_lists_parsed")
+
+
+def sensed_flow(ctx, c, shard):
+    """the read-modify-write flow of tools/swp.py: the dictionary handed to MODE SELECT is what MODE SENSE decoded from a
+    device response that may carry block descriptors; the produced list must still parse and carry the page"""
+    import pyscsi.pyscsi.scsi_enum_command as E
+
+    from vmon import harness
+    from vmon.spec import datain as D, dataout as DO
+
+    ten = c.custom == "mode10"
+    f = D.ModeSense(ten)
+    rng = ctx.rng("sensed")
+    for key in D.MODE_PAGES:
+        for nbd in (0, 1, 2, 3):
+            for _ in range(4 if shard["small"] else 60):
+                v = f.gen(rng, ("page", key, "rand", nbd))
+                resp = f.encode(v)
+                try:
+                    d = f.lib_decode(resp, v)
+                except Exception:  # noqa: BLE001
+                    continue  # C04's business
+                fld = rng.choice([n for n in D.MODE_PAGES[key].names()])
+                w = D.MODE_PAGES[key].width(fld)[1]
+                d["mode_pages"][0][fld] = d["mode_pages"][0].get(fld, 0) ^ (1 << rng.randrange(w))
+                exp = {"pages": [{k: x for k, x in d["mode_pages"][0].items()}]}
+                a = {"data": d, "pf": 1, "sp": 0}
+                setname = c.sets[0]
+                ctx.case((c.name, "sensed", bytes(resp), fld), True, sample={"cmd": c.name, "flow": "modesense->edit->modeselect", "block_descriptors": nbd} if ctx.want_sample() else None)
+                ctx.count("sensed_flow_cases")
+                try:
+                    cmd = harness.construct(c, setname, DO.fresh(a))
+                except Exception as e:  # noqa: BLE001
+                    ctx.fail("C05:%s.sensed_flow.constructor_raises.%s" % (c.custom, type(e).__name__), "MODE SELECT from a sensed dictionary raised %s: %s" % (type(e).__name__, e),
+                             {"gen": c.custom, "cmd": c.name, "sensed_response": resp}, exc=e)
+                    continue
+                judge(ctx, c, setname, "sensed_flow", a, exp, cmd)
 
 
 def finalize(merged, tier):
